@@ -25,6 +25,11 @@ CODES = {
     51: "C15: cleaning/conversion result differs from the rule or was not all-or-nothing",
     52: "C10: CSV import result differs from the typing rule / malformed input accepted",
     53: "C17: Apply result differs from the sequential loop",
+    3: "the implementation's success/error status differs from the model's",
+    61: "C11: after a successful export the table does not hold exactly the frame's rows under their columns (or another table changed)",
+    62: "C12: not all-or-nothing (store changed after a failure, commit after a failure, missing/duplicate commit, Tx variant finished the transaction)",
+    64: "C13: the quoted text is not read back by the dialect's lexer as one identifier with exactly that name",
+    65: "C14: a frame was returned although something failed, or its shape does not match the result set",
 }
 
 TRUSTED_BASE = [
@@ -66,6 +71,20 @@ PROPS = {
             "rule": "C09 plan: frames with 1-4 columns whose names and text cells contain commas, quotes, LF, CR, tabs, non-ASCII and empty strings; ints up to 2^53, any float64; the bytes written are compared with the model writer byte for byte and the re-imported frame with the model reader."},
     "C10": {"plans": ["C10"], "codes": [1, 2, 30, 52],
             "rule": "C10 plan: every byte string up to a length over {a , \" LF CR 1} (exhaustive stream), then grammar-generated tables with numeric look-alikes, ragged and blank records, CR/LF variants and byte-level mutations."},
+    "C11": {"plans": ["C11"], "codes": [1, 2, 3, 61], "pershard": 10,
+            "rule": "C11 plan: every batch size 0(default),1..rows+2 x {sqlite,postgres,mysql} x {fail,replace,append} x table present/absent for frames of 0..R rows "
+                    "(exhaustive stream), then random frames with dialect aliases in mixed case, TypeMap overrides, existing tables with other column sets, the four "
+                    "entry points and invalid options; the statement texts and bound values reaching the driver are compared with the model exactly and the table "
+                    "store of the harness's own in-memory engine with the model's store and with the effect specification."},
+    "C12": {"plans": ["C12"], "codes": [1, 2, 3, 62], "pershard": 10,
+            "rule": "C12 plan: for every scenario (rows 0..R x batch {1,2,default} x IfExists x present/absent) a failure injected at each driver call it makes "
+                    "(Begin, existence query, DROP, CREATE, each INSERT batch, Commit), a context cancellation after each call, and the Tx variants with and without a failure."},
+    "C13": {"plans": ["C13"], "codes": [1, 2, 3, 61, 64], "pershard": 30,
+            "rule": "C13 plan: every name up to length L over {\" ` ' \\ ; - space a} in three dialects (exhaustive stream), random long and non-ASCII names, and whole exports "
+                    "whose table and column names are hostile, executed by the harness's own dialect-aware lexer and table store."},
+    "C14": {"plans": ["C14"], "codes": [1, 65], "pershard": 10,
+            "rule": "C14 plan: every NULL pattern on result sets up to RxR x seven handlers (exhaustive stream), then random result sets over 27 declared type names, ParseDates "
+                    "subsets with text/int/float date columns, the four entry points, scan errors, iteration errors at each row, nil handles, empty and failing queries."},
     "C15": {"plans": ["C15"], "codes": [1, 2, 51, 31],
             "rule": "C15 plan: FillNa/DropNa/Astype/AddDatetimeIndex on columns of every kind with nils, unconvertible cells at any position, valid and invalid target names and layouts."},
     "C16": {"plans": ["C16"], "codes": [1, 2, 49],
